@@ -108,13 +108,15 @@ def build_series(spec):
     rs = np.random.RandomState(spec["seed"])
     # magnitudes across scales (a power of two keeps every linear result exactly scalable), non-zero offset
     data = (rs.randn(*spec["shape"]) + spec.get("offset", 0.0)) * 2.0 ** spec.get("scale_pow", 0)
+    if spec.get("ints"):            # integer samples stored as int16 / int32 / int64 (or the same samples as float64)
+        data = (rs.randint(-400, 400, size=tuple(spec["shape"])) + int(spec.get("offset", 0.0))).astype(spec["ints"])
     lay = spec.get("layout", "C")
     if lay == "F":
         data = np.asfortranarray(data)
     elif lay == "strided":          # a non-contiguous view: every second sample of a twice as long array
-        big = np.empty(tuple(spec["shape"][:-1]) + (2 * spec["shape"][-1],))
+        big = np.empty(tuple(spec["shape"][:-1]) + (2 * spec["shape"][-1],), dtype=data.dtype)
         big[..., ::2] = data
-        big[..., 1::2] = 1e30
+        big[..., 1::2] = 1e30 if data.dtype.kind == "f" else 12345
         data = big[..., ::2]
     elif lay == "list":
         data = data.tolist()
@@ -142,7 +144,7 @@ def run_axis(spec):
     from nitime.analysis import snr as snr_mod
     import scipy.signal as sig
     import matplotlib.mlab as mlab
-    rec = {"spec": spec, "outs": [], "diff": [], "errors": [], "fs_used": []}
+    rec = {"spec": spec, "outs": [], "diff": [], "errors": [], "fs_used": [], "_vals": {}}
     try:
         T, data = build_series(spec)
     except Exception as e:  # noqa
@@ -158,6 +160,7 @@ def run_axis(spec):
         try:
             S = f()
             rec["outs"].append({"name": name, "sel": sel, "obs": obs_of(S)})
+            rec["_vals"]["out:" + name] = np.array(S.data)
             return S
         except Exception as e:  # noqa
             rec["errors"].append((name, "%s: %s" % (type(e).__name__, str(e)[:100])))
@@ -167,6 +170,7 @@ def run_axis(spec):
         """f returns (analyzer value, direct algorithm value)"""
         try:
             a, b = f()
+            rec["_vals"][name] = np.array(a)
             rec["diff"].append({"name": name, "ok": close(a, b, rtol=RTOL + 2.0 / max(rec["iobs"]["dt"], 1)),
                                 "err": float(np.max(np.abs(np.asarray(a) - np.asarray(b)))) if np.shape(a) == np.shape(b) and np.size(a) else None})
         except Exception as e:  # noqa
@@ -316,12 +320,14 @@ def run_axis(spec):
             else:
                 C = nta.CorrelationAnalyzer(T)
             xc = out("CorrelationAnalyzer.xcorr", "OXcorr", lambda: C.xcorr)
-            xn = out("CorrelationAnalyzer.xcorr_norm", "OXcorr", lambda: C.xcorr_norm)
+            # pairwise analyzers (xcorr_norm via corrcoef, the coherence family) need at least two channels:
+            # np.corrcoef / get_spectra return a scalar / 1-d spectrum for a single row and they raise IndexError
+            xn = out("CorrelationAnalyzer.xcorr_norm", "OXcorr", lambda: C.xcorr_norm) if c >= 2 else None
             diff("CorrelationAnalyzer.corrcoef", lambda: (C.corrcoef, np.corrcoef(data)))
             if xc is not None:
                 diff("CorrelationAnalyzer.xcorr[i<=j]", lambda: (
                     np.array([xc.data[i, j] for i in range(c) for j in range(i, c)]),
-                    np.array([np.correlate(data[i], data[j], "full") for i in range(c) for j in range(i, c)])))
+                    np.array([np.correlate(data[i].astype(float), data[j].astype(float), "full") for i in range(c) for j in range(i, c)])))
                 rec["xcorr_zero"] = {"peak_auto": [int(np.argmax(xc.data[i, i])) for i in range(c)]}
             if xn is not None:
                 cc = np.corrcoef(data)
@@ -343,7 +349,7 @@ def run_axis(spec):
                 diff("SNRAnalyzer.mt_noise_psd", lambda: (SN.mt_noise_psd, np.mean([tsa.multi_taper_psd.__wrapped__(r, Fs=fs, BW=None, adaptive=False, low_bias=False)[1] for r in (data - np.mean(data, 0))], 0)))
                 diff("SNRAnalyzer.mt_frequencies", lambda: (SN.mt_frequencies, np.fft.rfftfreq(n) * fs))
             # ---- coherence family
-            if n >= 96:
+            if n >= 96 and c >= 2:
                 CO = nta.CoherenceAnalyzer(input=T, method={"this_method": "welch", "NFFT": 64, "n_overlap": 32}) if alt else nta.CoherenceAnalyzer(T)
 
                 def d_coh():
@@ -371,7 +377,7 @@ def run_axis(spec):
                     diff("MTCoherenceAnalyzer.frequencies", lambda: (MT.frequencies, np.fft.rfftfreq(n) * fs))
                     _ = MT.coherence
             # ---- Granger
-            if heavy and n >= 96:
+            if heavy and n >= 96 and c >= 2:
                 G = nta.GrangerAnalyzer(T, order=2, n_freqs=32)
                 diff("GrangerAnalyzer.frequencies", lambda: (G.frequencies, np.linspace(0, fs / 2, 17)))
 
@@ -795,6 +801,13 @@ def gen_axis_spec(rng, quick, k):
             "alt": rng.random() < 0.35, "alt_read_first": rng.random() < 0.6, "alt_spectral": rng.choice([0, 0, 1]),
             "filt": rng.choice([{"lb": 0.0, "ub_frac": 0.25}, {"lb": 0.05, "ub_frac": 0.3}, {"lb": 0.1, "ub_frac": None},
                                 {"lb": 0.0, "ub_frac": None}, {"lb": 0.0, "ub_frac": 0.4}])}
+    if k % 7 == 2 and not large:
+        # integer-dtype samples: 1-d, (1, n) and (k, n)
+        shape = [[n], [1, n], [rng.randint(2, 4), n]][(k // 7) % 3]
+        nd = len(shape)
+        spec.update(shape=shape, ints=["int16", "int32", "int64"][(k // 21) % 3 if k >= 21 else rng.randint(0, 2)],
+                    offset=float(rng.choice([0, 3, -7, 100])), scale_pow=0, layout=rng.choice(["C", "F", "strided"]),
+                    heavy=(k % 2 == 0))
     if nd <= 2:
         spec["ev"] = {"len_et": rng.randint(4, 11), "offset": rng.choice([0, 0, 1, 2, 3]), "two_types": rng.random() < 0.3}
         if nd == 1 and rng.random() < 0.4:
@@ -1156,13 +1169,79 @@ HEADER = ("From Coq Require Import ZArith List Bool QArith PrimFloat.\n"
           "From NT Require Import F2Z Lists Close TimeArray FrontEnd C15K.\nImport ListNotations.\nOpen Scope Z_scope.\n")
 
 
+def val_powers(name):
+    """how an analyzer value scales when the data are multiplied by c: the set of admissible exponents
+    (values that carry a frequency axis in front admit 0 for those entries)"""
+    base = name[4:] if name.startswith("out:") else name
+    if base.endswith(".phase") or "z_score" in base or "percent_change" in base or "xcorr_norm" in base \
+            or "corrcoef" in base or "oheren" in base or "Granger" in base or base.endswith("frequencies"):
+        return (0,)
+    if "xcorr" in base and "xcorr_eta" not in base:
+        return (2,)
+    if base in ("SpectralAnalyzer.psd", "SpectralAnalyzer.periodogram", "SpectralAnalyzer.cpsd", "SpectralAnalyzer.spectrum_multi_taper"):
+        return (0, 2)
+    if base.startswith("SNRAnalyzer.mt_") :
+        return (2,)
+    if base == "SpectralAnalyzer.spectrum_fourier":
+        return (0, 1)
+    return (1,)
+
+
+def compare_runs(rec, rec2, cpow, what, key_suffix):
+    """rec2 is the same case on data * 2^cpow (cpow = None: the same samples in another dtype); yields Fails"""
+    I, I2 = rec.get("iobs"), rec2.get("iobs")
+    if I is None or I2 is None:
+        return
+    ax = lambda r: [(o["name"], {k: v for k, v in o["obs"].items()}) for o in r["outs"]]
+    if {k: v for k, v in I.items()} != {k: v for k, v in I2.items()} or ax(rec) != ax(rec2):
+        yield Fail("C15/time-axis/%s" % key_suffix, "descriptors of input / outputs change when the data are %s" % what, None, None)
+    for name, v in rec["_vals"].items():
+        if name not in rec2["_vals"]:
+            yield Fail("C15/%s/%s" % (name, key_suffix), "%s: no result for the data %s (%s)" % (name, what, [e for e in rec2["errors"]][:2]), None, None)
+            continue
+        w = rec2["_vals"][name]
+        if v.shape != w.shape:
+            yield Fail("C15/%s/%s" % (name, key_suffix), "%s: shape %s for the data %s, %s otherwise" % (name, w.shape, what, v.shape), list(w.shape), list(v.shape))
+            continue
+        v_, w_ = np.ravel(v).astype(complex), np.ravel(w).astype(complex)
+        fin = np.isfinite(v_) & np.isfinite(w_)
+        if not np.array_equal(np.isfinite(v_), np.isfinite(w_)):
+            yield Fail("C15/%s/%s" % (name, key_suffix), "%s: non-finite entries differ for the data %s" % (name, what), None, None)
+            continue
+        rt = 1e-6 if "Granger" in name else 1e-8
+        ok = np.zeros(v_.shape, bool) | ~fin
+        for p_ in ((0,) if cpow is None else val_powers(name)):
+            tgt = v_ * (2.0 ** (cpow * p_) if cpow is not None else 1.0)
+            sc = float(np.max(np.abs(tgt[fin]))) if fin.any() else 0.0
+            ok |= np.abs(w_ - tgt) <= rt * np.abs(tgt) + 1e-10 * sc
+        if not ok.all():
+            i = int(np.argmin(ok))
+            yield Fail("C15/%s/%s" % (name, key_suffix),
+                       "%s: value %r for the data %s, %r otherwise (entry %d of %d; admissible scaling exponents %s)" % (
+                           name, complex(w_[i]), what, complex(v_[i]), i, v_.size, list(val_powers(name)) if cpow is not None else "-"),
+                       repr(complex(w_[i])), repr(complex(v_[i])))
+
+
 def run_one(item, tmp):
     """item: {'kind': axis|concat|read, 'spec': …} -> (record, cases, fails)"""
     k = item["kind"]
     if k == "axis":
-        rec = run_axis(item["spec"])
+        spec = item["spec"]
+        rec = run_axis(spec)
         cases = axis_case(rec) if "iobs" in rec else []
         fails = list(oracle_axis(rec))
+        rec["companions"] = 0
+        if spec.get("ints"):
+            # the same samples as float64: an analyzer must not depend on the storage type of the data
+            rec2 = run_axis(dict(spec, ints="float64"))
+            fails += list(compare_runs(rec2, rec, None, "stored as %s instead of float64" % spec["ints"], "integer-data"))
+            rec["companions"] += 1
+        elif not item.get("no_rescale"):
+            # the same case on data multiplied by exact powers of two far from its scale
+            for cp in ((-45, 35) if spec["shape"][-1] <= 1100 else (35,)):
+                rec2 = run_axis(dict(spec, scale_pow=spec.get("scale_pow", 0) + cp))
+                fails += list(compare_runs(rec, rec2, cp, "multiplied by 2^%d" % cp, "rescaled"))
+                rec["companions"] += 1
     elif k == "concat":
         rec = run_concat(item["spec"])
         cases = [concat_case(rec)] if "out" in rec else []
@@ -1222,7 +1301,7 @@ def run(ctx):
     tmp = tempfile.mkdtemp(prefix="c15_nifti_")
     all_cases, all_fails = [], []
     seq_cases = []
-    ndiff = nfs = nouts = 0
+    ndiff = nfs = nouts = ncomp = 0
     try:
         for it in items:
             rec, cases, fails = run_one(it, tmp)
@@ -1236,6 +1315,7 @@ def run(ctx):
             ndiff += len(rec.get("diff", []))
             nfs += len(rec.get("fs_used", []))
             nouts += len(rec.get("outs", [])) + len(rec.get("obs", []))
+            ncomp += rec.get("companions", 0)
     finally:
         shutil.rmtree(tmp, ignore_errors=True)
     bad = check_cases_retry(ctx, "K", HEADER, all_cases, "check", shard=ctx.scale(40, 120), case_type="case")
@@ -1252,10 +1332,11 @@ def run(ctx):
         "note": "implementation-vs-implementation (analyzer result vs direct algorithm call on series.data with "
                 "Fs=float(series.sampling_rate); reader output vs the documented pipeline applied by hand): "
                 "a search oracle, NOT part of the proof",
-        "comparisons": ndiff, "Fs_hand_overs_recorded": nfs, "output_descriptors_compared": nouts}
+        "comparisons": ndiff, "rescaled_or_retyped_reruns": ncomp, "Fs_hand_overs_recorded": nfs, "output_descriptors_compared": nouts}
     ctx.extra["rule"] = ("seeded generator: inputs built with sampling_interval= / sampling_rate= in s, ms, us, non-zero t0, "
                          "1-d/2-d/3-d data, intervals from 10 ns to 2^46 ps (every 17th at or above 2^49 ps), all analyzers that accept "
-                         "the input; series lengths 64-128 and (every 11th) 1009-4097 (thorough: to 16385), data scaled by 2^-60..2^40 with offsets, "
+                         "the input; every analyzer case re-run on its data * 2^-45 and * 2^35 (values must scale by c^0 / c^1 / c^2, descriptors unchanged), every 7th case on "
+                         "int16 / int32 / int64 samples (1-d, (1,n), (k,n)) against the same samples as float64; series lengths 64-128 and (every 11th) 1009-4097 (thorough: to 16385), data scaled by 2^-60..2^40 with offsets, "
                          "C / Fortran / strided / list data, inputs re-derived through copy() / time= / positional arguments, analyzers entered "
                          "through set_input / input= / explicit method dicts; concatenations of 1-16 runs of 1-2049 samples; generated NIfTI files "
                          "(int16 / float32 / float64, .nii / .nii.gz, C / Fortran / strided arrays, values scaled by powers of two; single / up to 12 "
